@@ -1,3 +1,1060 @@
-//! C04 harnesses (see /verif/DESIGN.md section 5).
+//! C04 - decoding into header structs agrees with slicing.
+//!
+//! Pure differential on identical symbolic bytes:
+//!   `PacketHeaders::{from_ethernet_slice, from_ether_type, from_ip_slice}` vs
+//!   `SlicedPacket::{from_ethernet, from_ether_type, from_ip}` and
+//!   `LaxPacketHeaders::{from_ethernet, from_ether_type, from_ip}` vs `LaxSlicedPacket::{..}`.
+//!
+//! Oracle (`cmp_strict`, `cmp_lax`): same verdict (and the same error kind / layer / numbers, with
+//! two enumerated ordering tolerances); on success `link`, every `link_exts[i]`, `net`, `transport`
+//! equal to the `to_header()` conversions of the sliced result and the remaining payload covers the
+//! same bytes (start address + length) and names the same protocol; lax: same `stop_err`.
+//! The one permitted difference (IPv6 extension header of a kind whose struct slot is already
+//! filled) is computed by an independent walker over the raw bytes (`walk_chain`), never assumed.
+//!
+//! Cost model that shaped this module (measured, see reg/c04.py):
+//! * `PacketHeaders` / `LaxPacketHeaders` hold `NetHeaders`, a ~10 KB enum (IPv6 variant: four 2 KB
+//!   raw extension buffers + 1 KB ICV buffer). Kani encodes enums as unions, CBMC handles the
+//!   byte arrays above 1000 elements with its array theory: 5-9 GB and 3-6 min for ONE strict pair
+//!   at N = 32, 20 GB exceeded as soon as a dispatch value (IP version, protocol, ether type) is
+//!   symbolic, because then every decoder arm (three IPv6 chain walks) is executed symbolically.
+//! * `assume` does not prune symbolic execution. Therefore the dispatch bytes of a harness are
+//!   WRITTEN as constants into the symbolic array (`shaped!` skeletons); everything else,
+//!   including the slice length, stays symbolic. `Shape` repeats what the skeleton can produce so
+//!   that comparison arms of other kinds are closed statically (a result outside the shape FAILS).
+//! * All struct comparisons are field by field and loop free (`bytes_eq`), so the unwind value
+//!   of a harness is determined by the decoder loops alone.
+//!
+//! Only the harnesses listed in reg/c04.py are part of the claim; the other `shaped!` bodies and
+//! the `exts_layer_*` bodies are kept because they are correct as far as they could be run, but
+//! they need more memory than the shared machine had (see "outside" in the registry).
 
-crate::harnesses! {}
+use crate::sym::{any, any_le, assume};
+use crate::witness;
+use etherparse::err::packet::SliceError;
+use etherparse::err::{Layer, LenError};
+use etherparse::*;
+
+// ================================================================ loop free comparisons
+
+macro_rules! idx_eq {
+    ($a:expr, $b:expr; $($i:literal)*) => { true $( && ($i >= $a.len() || $a[$i] == $b[$i]) )* };
+}
+
+/// slice equality without a loop; lengths above 40 compare unequal (so a bound that is too small
+/// for the data shows up as a failed assertion, never as a silently skipped comparison)
+fn bytes_eq(a: &[u8], b: &[u8]) -> bool {
+    a.len() == b.len()
+        && a.len() <= 40
+        && idx_eq!(a, b; 0 1 2 3 4 5 6 7 8 9 10 11 12 13 14 15 16 17 18 19
+                         20 21 22 23 24 25 26 27 28 29 30 31 32 33 34 35 36 37 38 39)
+}
+
+fn mac_eq(a: &[u8; 6], b: &[u8; 6]) -> bool {
+    a[0] == b[0] && a[1] == b[1] && a[2] == b[2] && a[3] == b[3] && a[4] == b[4] && a[5] == b[5]
+}
+
+/// same byte range: same start address and same length
+fn same_range(a: &[u8], b: &[u8]) -> bool {
+    a.as_ptr() == b.as_ptr() && a.len() == b.len()
+}
+
+fn eq_opt<T>(a: &Option<T>, b: &Option<T>, f: fn(&T, &T) -> bool) -> bool {
+    match (a, b) {
+        (None, None) => true,
+        (Some(x), Some(y)) => f(x, y),
+        _ => false,
+    }
+}
+
+fn eq_eth(a: &Ethernet2Header, b: &Ethernet2Header) -> bool {
+    mac_eq(&a.source, &b.source) && mac_eq(&a.destination, &b.destination) && a.ether_type == b.ether_type
+}
+
+fn eq_link(h: &Option<LinkHeader>, s: &Option<LinkSlice>) -> bool {
+    let exp = match s {
+        Some(l) => l.to_header(),
+        None => None,
+    };
+    match (h, &exp) {
+        (None, None) => true,
+        (Some(LinkHeader::Ethernet2(a)), Some(LinkHeader::Ethernet2(b))) => eq_eth(a, b),
+        // Linux SLL cannot be produced by the three entry points of this property
+        _ => false,
+    }
+}
+
+fn eq_ipv4_header(a: &Ipv4Header, b: &Ipv4Header) -> bool {
+    a.dscp == b.dscp
+        && a.ecn == b.ecn
+        && a.total_len == b.total_len
+        && a.identification == b.identification
+        && a.dont_fragment == b.dont_fragment
+        && a.more_fragments == b.more_fragments
+        && a.fragment_offset == b.fragment_offset
+        && a.time_to_live == b.time_to_live
+        && a.protocol == b.protocol
+        && a.header_checksum == b.header_checksum
+        && u32::from_be_bytes(a.source) == u32::from_be_bytes(b.source)
+        && u32::from_be_bytes(a.destination) == u32::from_be_bytes(b.destination)
+        && bytes_eq(a.options.as_slice(), b.options.as_slice())
+}
+
+fn eq_auth(a: &IpAuthHeader, b: &IpAuthHeader) -> bool {
+    a.next_header == b.next_header
+        && a.spi == b.spi
+        && a.sequence_number == b.sequence_number
+        && bytes_eq(a.raw_icv(), b.raw_icv())
+}
+
+fn eq_ipv6_header(a: &Ipv6Header, b: &Ipv6Header) -> bool {
+    a.traffic_class == b.traffic_class
+        && a.flow_label == b.flow_label
+        && a.payload_length == b.payload_length
+        && a.next_header == b.next_header
+        && a.hop_limit == b.hop_limit
+        && u128::from_be_bytes(a.source) == u128::from_be_bytes(b.source)
+        && u128::from_be_bytes(a.destination) == u128::from_be_bytes(b.destination)
+}
+
+fn eq_raw_ext(a: &Ipv6RawExtHeader, b: &Ipv6RawExtHeader) -> bool {
+    a.next_header == b.next_header && bytes_eq(a.payload(), b.payload())
+}
+
+fn eq_frag(a: &Ipv6FragmentHeader, b: &Ipv6FragmentHeader) -> bool {
+    a.next_header == b.next_header
+        && a.fragment_offset == b.fragment_offset
+        && a.more_fragments == b.more_fragments
+        && a.identification == b.identification
+}
+
+fn eq_routing(a: &Ipv6RoutingExtensions, b: &Ipv6RoutingExtensions) -> bool {
+    eq_raw_ext(&a.routing, &b.routing)
+        && eq_opt(&a.final_destination_options, &b.final_destination_options, eq_raw_ext)
+}
+
+fn eq_ipv6_exts(a: &Ipv6Extensions, b: &Ipv6Extensions) -> bool {
+    eq_opt(&a.hop_by_hop_options, &b.hop_by_hop_options, eq_raw_ext)
+        && eq_opt(&a.destination_options, &b.destination_options, eq_raw_ext)
+        && eq_opt(&a.routing, &b.routing, eq_routing)
+        && eq_opt(&a.fragment, &b.fragment, eq_frag)
+        && eq_opt(&a.auth, &b.auth, eq_auth)
+}
+
+fn eq_arp(a: &ArpPacket, b: &ArpPacket) -> bool {
+    a.hw_addr_type == b.hw_addr_type
+        && a.proto_addr_type == b.proto_addr_type
+        && a.operation == b.operation
+        && a.hw_addr_size() == b.hw_addr_size()
+        && a.protocol_addr_size() == b.protocol_addr_size()
+        && bytes_eq(a.sender_hw_addr(), b.sender_hw_addr())
+        && bytes_eq(a.sender_protocol_addr(), b.sender_protocol_addr())
+        && bytes_eq(a.target_hw_addr(), b.target_hw_addr())
+        && bytes_eq(a.target_protocol_addr(), b.target_protocol_addr())
+}
+
+fn eq_tcp(a: &TcpHeader, b: &TcpHeader) -> bool {
+    a.source_port == b.source_port
+        && a.destination_port == b.destination_port
+        && a.sequence_number == b.sequence_number
+        && a.acknowledgment_number == b.acknowledgment_number
+        && a.ns == b.ns
+        && a.fin == b.fin
+        && a.syn == b.syn
+        && a.rst == b.rst
+        && a.psh == b.psh
+        && a.ack == b.ack
+        && a.urg == b.urg
+        && a.ece == b.ece
+        && a.cwr == b.cwr
+        && a.window_size == b.window_size
+        && a.checksum == b.checksum
+        && a.urgent_pointer == b.urgent_pointer
+        && bytes_eq(a.options.as_slice(), b.options.as_slice())
+}
+
+// ================================================================ conversions of the sliced result
+
+/// `[u8; 4]` members of the ICMP types compare through a 4 byte `memcmp`: needs unwind >= 5
+fn eq_transport_slice(a: &TransportHeader, t: &TransportSlice, tr: u8) -> bool {
+    match (a, t) {
+        (TransportHeader::Udp(x), TransportSlice::Udp(u)) => tr & T_UDP != 0 && *x == u.to_header(),
+        (TransportHeader::Tcp(x), TransportSlice::Tcp(t)) => tr & T_TCP != 0 && eq_tcp(x, &t.to_header()),
+        (TransportHeader::Icmpv4(x), TransportSlice::Icmpv4(i)) => tr & T_ICMP4 != 0 && *x == i.header(),
+        (TransportHeader::Icmpv6(x), TransportSlice::Icmpv6(i)) => tr & T_ICMP6 != 0 && *x == i.header(),
+        _ => false,
+    }
+}
+
+fn transport_payload<'a>(t: &TransportSlice<'a>) -> &'a [u8] {
+    match t {
+        TransportSlice::Udp(u) => u.payload(),
+        TransportSlice::Tcp(t) => t.payload(),
+        TransportSlice::Icmpv4(i) => i.payload(),
+        TransportSlice::Icmpv6(i) => i.payload(),
+    }
+}
+
+/// Net layer kinds a harness can produce by construction of its input (concrete dispatch bytes).
+/// The comparison arms of the other kinds are closed *statically* (a result of another kind is a
+/// failed comparison), which keeps their conversion code out of the symbolic execution.
+pub const V4: u8 = 1;
+pub const V6: u8 = 2;
+pub const ARP: u8 = 4;
+/// transport kinds, same idea
+pub const T_UDP: u8 = 1;
+pub const T_TCP: u8 = 2;
+pub const T_ICMP4: u8 = 4;
+pub const T_ICMP6: u8 = 8;
+pub const T_ALL: u8 = 15;
+
+/// `net` of the struct result equals the conversion of the sliced `net` (the big header structs are
+/// compared in place, without building a `NetHeaders` value)
+fn eq_net_strict(a: &NetHeaders, n: &NetSlice, kinds: u8) -> bool {
+    match (a, n) {
+        (NetHeaders::Ipv4(ah, ae), NetSlice::Ipv4(s)) => {
+            if kinds & V4 == 0 {
+                return false;
+            }
+            eq_ipv4_header(ah, &s.header().to_header()) && eq_opt(&ae.auth, &s.extensions().to_header().auth, eq_auth)
+        }
+        (NetHeaders::Ipv6(ah, ae), NetSlice::Ipv6(s)) => {
+            if kinds & V6 == 0 {
+                return false;
+            }
+            // the crate's own conversion of a sliced IP packet
+            match IpSlice::Ipv6(s.clone()).to_header() {
+                IpHeaders::Ipv6(bh, be) => eq_ipv6_header(ah, &bh) && eq_ipv6_exts(ae, &be),
+                _ => false,
+            }
+        }
+        (NetHeaders::Arp(x), NetSlice::Arp(y)) => kinds & ARP != 0 && eq_arp(x, &y.to_packet()),
+        _ => false,
+    }
+}
+
+fn eq_net_lax(a: &NetHeaders, n: &LaxNetSlice, kinds: u8) -> bool {
+    match (a, n) {
+        (NetHeaders::Ipv4(ah, ae), LaxNetSlice::Ipv4(s)) => {
+            if kinds & V4 == 0 {
+                return false;
+            }
+            eq_ipv4_header(ah, &s.header().to_header()) && eq_opt(&ae.auth, &s.extensions().to_header().auth, eq_auth)
+        }
+        (NetHeaders::Ipv6(ah, ae), LaxNetSlice::Ipv6(s)) => {
+            if kinds & V6 == 0 {
+                return false;
+            }
+            // there is no `to_header` on the lax IP slices: the extension part is converted with the lax
+            // struct decoder over exactly the bytes the slicing result covers
+            let (be, _, _, _) = Ipv6Extensions::from_slice_lax(s.header().next_header(), s.extensions().slice());
+            eq_ipv6_header(ah, &s.header().to_header()) && eq_ipv6_exts(ae, &be)
+        }
+        (NetHeaders::Arp(x), LaxNetSlice::Arp(y)) => kinds & ARP != 0 && eq_arp(x, &y.to_packet()),
+        _ => false,
+    }
+}
+
+/// what the slicing result leaves undecoded: (bytes, ether type | ip number, fragmented)
+#[derive(Clone, Copy, PartialEq, Eq)]
+enum Proto {
+    /// nothing left (ARP)
+    Nothing,
+    Ether(EtherType),
+    /// MACsec encrypted / modified payload
+    Opaque,
+    Ip(IpNumber, bool),
+    Udp,
+    Tcp,
+    Icmpv4,
+    Icmpv6,
+}
+
+fn strict_innermost<'a>(s: &SlicedPacket<'a>) -> (&'a [u8], Proto) {
+    if let Some(t) = &s.transport {
+        let p = match t {
+            TransportSlice::Udp(_) => Proto::Udp,
+            TransportSlice::Tcp(_) => Proto::Tcp,
+            TransportSlice::Icmpv4(_) => Proto::Icmpv4,
+            TransportSlice::Icmpv6(_) => Proto::Icmpv6,
+        };
+        return (transport_payload(t), p);
+    }
+    if let Some(n) = &s.net {
+        return match n.ip_payload_ref() {
+            Some(p) => (p.payload, Proto::Ip(p.ip_number, p.fragmented)),
+            None => (&[], Proto::Nothing),
+        };
+    }
+    if let Some(e) = s.link_exts.last() {
+        return match e {
+            LinkExtSlice::Vlan(v) => {
+                let p = v.payload();
+                (p.payload, Proto::Ether(p.ether_type))
+            }
+            LinkExtSlice::Macsec(m) => match &m.payload {
+                MacsecPayloadSlice::Unmodified(p) => (p.payload, Proto::Ether(p.ether_type)),
+                MacsecPayloadSlice::Modified(p) => (p, Proto::Opaque),
+            },
+        };
+    }
+    match &s.link {
+        Some(LinkSlice::Ethernet2(e)) => {
+            let p = e.payload();
+            (p.payload, Proto::Ether(p.ether_type))
+        }
+        Some(LinkSlice::EtherPayload(p)) => (p.payload, Proto::Ether(p.ether_type)),
+        _ => (&[], Proto::Nothing),
+    }
+}
+
+fn lax_innermost<'a>(s: &LaxSlicedPacket<'a>) -> (&'a [u8], Proto) {
+    if let Some(t) = &s.transport {
+        let p = match t {
+            TransportSlice::Udp(_) => Proto::Udp,
+            TransportSlice::Tcp(_) => Proto::Tcp,
+            TransportSlice::Icmpv4(_) => Proto::Icmpv4,
+            TransportSlice::Icmpv6(_) => Proto::Icmpv6,
+        };
+        return (transport_payload(t), p);
+    }
+    if let Some(n) = &s.net {
+        return match n.ip_payload_ref() {
+            Some(p) => (p.payload, Proto::Ip(p.ip_number, p.fragmented)),
+            None => (&[], Proto::Nothing),
+        };
+    }
+    if let Some(e) = s.link_exts.last() {
+        return match e {
+            LaxLinkExtSlice::Vlan(v) => {
+                let p = v.payload();
+                (p.payload, Proto::Ether(p.ether_type))
+            }
+            LaxLinkExtSlice::Macsec(m) => match &m.payload {
+                LaxMacsecPayloadSlice::Unmodified(p) => (p.payload, Proto::Ether(p.ether_type)),
+                LaxMacsecPayloadSlice::Modified { payload, .. } => (payload, Proto::Opaque),
+            },
+        };
+    }
+    match &s.link {
+        Some(LinkSlice::Ethernet2(e)) => {
+            let p = e.payload();
+            (p.payload, Proto::Ether(p.ether_type))
+        }
+        Some(LinkSlice::EtherPayload(p)) => (p.payload, Proto::Ether(p.ether_type)),
+        _ => (&[], Proto::Nothing),
+    }
+}
+
+fn strict_payload_proto(p: &PayloadSlice) -> Proto {
+    match p {
+        PayloadSlice::Empty => Proto::Nothing,
+        PayloadSlice::Ether(e) => Proto::Ether(e.ether_type),
+        PayloadSlice::MacsecMod(_) => Proto::Opaque,
+        PayloadSlice::Ip(i) => Proto::Ip(i.ip_number, i.fragmented),
+        PayloadSlice::Udp(_) => Proto::Udp,
+        PayloadSlice::Tcp(_) => Proto::Tcp,
+        PayloadSlice::Icmpv4(_) => Proto::Icmpv4,
+        PayloadSlice::Icmpv6(_) => Proto::Icmpv6,
+    }
+}
+
+fn lax_payload_proto(p: &LaxPayloadSlice) -> Proto {
+    match p {
+        LaxPayloadSlice::Empty => Proto::Nothing,
+        LaxPayloadSlice::Ether(e) => Proto::Ether(e.ether_type),
+        LaxPayloadSlice::MacsecModified { .. } => Proto::Opaque,
+        LaxPayloadSlice::Ip(i) => Proto::Ip(i.ip_number, i.fragmented),
+        LaxPayloadSlice::Udp { .. } => Proto::Udp,
+        LaxPayloadSlice::Tcp { .. } => Proto::Tcp,
+        LaxPayloadSlice::Icmpv4 { .. } => Proto::Icmpv4,
+        LaxPayloadSlice::Icmpv6 { .. } => Proto::Icmpv6,
+        // cannot be produced by the three entry points of this property
+        LaxPayloadSlice::LinuxSll(_) => Proto::Opaque,
+    }
+}
+
+// ================================================================ independent IPv6 chain walker
+
+/// The documented permitted difference: an IPv6 extension header of a kind that no longer fits
+/// the fixed struct. Walks the chain over the raw bytes (RFC 8200 section 4 layouts, RFC 4302 for
+/// AH) with the slot rules documented on `Ipv6Extensions::from_slice`: hop-by-hop only directly
+/// behind the IPv6 header, one destination options header in front of a routing header and one
+/// behind it, one routing, one fragment, one authentication header.
+///
+/// `d[ip..]` starts with a 40 byte IPv6 header (caller checked version and length), `end` is the
+/// end of the IPv6 payload. Returns `Some((offset, kind))` iff all headers in front of `offset`
+/// are complete and fit their slots and the header announced at `offset` has kind `kind` whose
+/// slot is already filled.
+fn walk_overflow(d: &[u8], ip: usize, end: usize) -> Option<(usize, u8)> {
+    walk_chain(d, d[ip + 6], ip + 40, end)
+}
+
+/// the walker proper: chain announced as `first` starts at `d[start]` and may use `d[..end]`
+#[allow(unused_assignments)]
+fn walk_chain(d: &[u8], first: u8, start: usize, end: usize) -> Option<(usize, u8)> {
+    let mut nh = first;
+    let mut o = start;
+    let (mut dest, mut route, mut fin_dest, mut frag, mut auth) = (false, false, false, false, false);
+    // at most 4 headers fit the bounds used here; the 5th step only has to classify
+    macro_rules! step {
+        ($first:expr) => {{
+            let slot_full = match nh {
+                0 => {
+                    if !$first {
+                        return None; // hop-by-hop not at start: an error in both families
+                    }
+                    false
+                }
+                60 => {
+                    if route {
+                        fin_dest
+                    } else {
+                        dest
+                    }
+                }
+                43 => route,
+                44 => frag,
+                51 => auth,
+                _ => return None, // not an extension header: chain complete
+            };
+            if slot_full {
+                return Some((o, nh));
+            }
+            // the header has to be complete, otherwise both families report a length error here
+            if end < o + 8 && nh != 51 {
+                return None;
+            }
+            if nh == 51 && end < o + 12 {
+                return None;
+            }
+            let hl = match nh {
+                44 => 8,
+                51 => {
+                    if d[o + 1] == 0 {
+                        return None; // AH payload length 0: content error in both families
+                    }
+                    (d[o + 1] as usize + 2) * 4
+                }
+                _ => (d[o + 1] as usize + 1) * 8,
+            };
+            if end < o + hl {
+                return None;
+            }
+            match nh {
+                60 => {
+                    if route {
+                        fin_dest = true
+                    } else {
+                        dest = true
+                    }
+                }
+                43 => route = true,
+                44 => frag = true,
+                51 => auth = true,
+                _ => {}
+            }
+            nh = d[o];
+            o += hl;
+        }};
+    }
+    step!(true);
+    step!(false);
+    step!(false);
+    step!(false);
+    step!(false);
+    None
+}
+
+/// end of the IPv6 payload as both families document it: payload length 0 (and data behind the
+/// header) means "to the end of the slice"; `None` if the packet is rejected before the chain.
+fn ipv6_payload_end(d: &[u8], ip: usize) -> Option<usize> {
+    if d.len() < ip + 40 || (d[ip] >> 4) != 6 {
+        return None;
+    }
+    let pl = ((d[ip + 4] as usize) << 8) | d[ip + 5] as usize;
+    if pl == 0 && d.len() > ip + 40 {
+        Some(d.len())
+    } else if d.len() < ip + 40 + pl {
+        None
+    } else {
+        Some(ip + 40 + pl)
+    }
+}
+
+// ================================================================ the two oracles
+
+/// What the concrete skeleton of a harness input can produce. Only used to close comparison arms
+/// statically (a result outside the shape FAILS the comparison, it is never skipped).
+#[derive(Clone, Copy)]
+pub struct Shape {
+    /// net layer kinds (V4 | V6 | ARP)
+    pub kinds: u8,
+    /// transport kinds (T_*)
+    pub tr: u8,
+    /// offset of the IPv6 header whose extension chain the independent walker has to follow
+    /// (None: the skeleton contains no IPv6 extension header)
+    pub ip6: Option<usize>,
+}
+
+fn overflow_of(d: &[u8], sh: Shape) -> Option<(usize, u8)> {
+    match sh.ip6 {
+        Some(ip) => match ipv6_payload_end(d, ip) {
+            Some(end) => walk_overflow(d, ip, end),
+            None => None,
+        },
+        None => None,
+    }
+}
+
+/// Error values. C04 itself demands the same verdict; the two families call the same per-layer
+/// decoders in the same order, so the error *kind* (length vs. which content error) and the
+/// faulting layer have to agree as well, and so do the numbers of a length error - except for the
+/// enumerated, justified tolerances below (two coexisting faults tested in a different order).
+fn cmp_err(a: &SliceError, b: &SliceError) {
+    match (a, b) {
+        (SliceError::Len(x), SliceError::Len(y)) => {
+            assert!(x.layer == y.layer, "len error: layer differs");
+            // tolerance 1 (IPv4, fewer than 20 bytes and IHL > 5): `IpHeaders::from_slice` first demands the
+            // 20 byte minimum, `IpSlice::from_slice` directly demands IHL*4; both name the same layer,
+            // offset, length and length source
+            let tol_v4_min = x.layer == Layer::Ipv4Header && x.len < 20 && x.required_len == 20 && y.required_len > 20;
+            assert!(x.required_len == y.required_len || tol_v4_min, "len error: required_len differs");
+            assert!(x.len == y.len, "len error: len differs");
+            assert!(x.len_source == y.len_source, "len error: len_source differs");
+            assert!(x.layer_start_offset == y.layer_start_offset, "len error: layer_start_offset differs");
+        }
+        // tolerance 2 (IPv4, fewer than 20 bytes and IHL < 5): `IpHeaders::from_slice` reports the missing
+        // bytes, `IpSlice::from_slice` the bad IHL; both reject
+        (SliceError::Len(x), SliceError::Ip(err::ip::HeaderError::Ipv4HeaderLengthSmallerThanHeader { .. })) => {
+            assert!(x.layer == Layer::Ipv4Header && x.len < 20 && x.required_len == 20, "error kind differs (length vs content)");
+        }
+        (SliceError::Len(_), _) | (_, SliceError::Len(_)) => assert!(false, "error kind differs (length vs content)"),
+        _ => assert!(a == b, "content error differs"),
+    }
+}
+
+/// `PacketHeaders` (strict) decodes UDP with `UdpHeader::from_slice`, which ignores the UDP length
+/// field, while `SlicedPacket` uses `UdpSlice::from_slice`, which rejects a length field that is
+/// larger than the available data or in 1..=7 and cuts the payload to the length otherwise.
+/// Narrow predicate of the finding: struct decoding produced a UDP header whose (non zero) length
+/// field differs from the bytes that were available to it.
+fn udp_len_ignored(t: &Option<TransportHeader>, payload_len: usize) -> bool {
+    match t {
+        Some(TransportHeader::Udp(u)) => u.length != 0 && usize::from(u.length) != 8 + payload_len,
+        _ => false,
+    }
+}
+
+fn cmp_strict(d: &[u8], h: &Result<PacketHeaders, SliceError>, s: &Result<SlicedPacket, SliceError>, sh: Shape) {
+    if let Some((o, kind)) = overflow_of(d, sh) {
+        // documented difference: struct decoding ends at the header that does not fit and reports it
+        // as the payload's protocol; faults behind it go unnoticed
+        match h {
+            Ok(h) => {
+                assert!(h.transport.is_none(), "overflow: no transport header behind an undecoded extension header");
+                match &h.payload {
+                    PayloadSlice::Ip(p) => {
+                        assert!(p.ip_number == IpNumber(kind), "overflow: payload protocol is the header that did not fit");
+                        assert!(p.payload.as_ptr() == d[o..].as_ptr(), "overflow: payload starts at the header that did not fit");
+                    }
+                    _ => assert!(false, "overflow: payload must be the IP payload"),
+                }
+                if let Ok(s) = s {
+                    assert!(eq_link(&h.link, &s.link), "overflow: link");
+                    assert!(h.link_exts.len() == s.link_exts.len(), "overflow: link_exts");
+                    match (&h.net, &s.net) {
+                        (Some(a), Some(b)) => assert!(eq_net_strict(a, b, sh.kinds), "overflow: net"),
+                        _ => assert!(false, "overflow: net missing"),
+                    }
+                }
+            }
+            Err(_) => assert!(false, "overflow: struct decoding must stop without an error"),
+        }
+        return;
+    }
+    match (h, s) {
+        (Ok(h), Ok(s)) => {
+            assert!(eq_link(&h.link, &s.link), "link header differs");
+            assert!(h.link_exts.len() == s.link_exts.len(), "number of link extensions differs");
+            if h.link_exts.len() > 0 {
+                assert!(h.link_exts[0] == s.link_exts[0].to_header(), "link_exts[0] differs");
+            }
+            if h.link_exts.len() > 1 {
+                assert!(h.link_exts[1] == s.link_exts[1].to_header(), "link_exts[1] differs");
+            }
+            if h.link_exts.len() > 2 {
+                assert!(h.link_exts[2] == s.link_exts[2].to_header(), "link_exts[2] differs");
+            }
+            match (&h.net, &s.net) {
+                (None, None) => {}
+                (Some(a), Some(b)) => assert!(eq_net_strict(a, b, sh.kinds), "net headers differ"),
+                _ => assert!(false, "net header present in one result only"),
+            }
+            match (&h.transport, &s.transport) {
+                (None, None) => {}
+                (Some(a), Some(b)) => assert!(eq_transport_slice(a, b, sh.tr), "transport header differs"),
+                _ => assert!(false, "transport header present in one result only"),
+            }
+            let (sp, sproto) = strict_innermost(s);
+            let hp = h.payload.slice();
+            let hproto = strict_payload_proto(&h.payload);
+            assert!(hproto == sproto, "payload kind / protocol differs");
+            if hproto != Proto::Nothing {
+                assert!(hp.as_ptr() == sp.as_ptr(), "payload start differs");
+            }
+            if udp_len_ignored(&h.transport, hp.len()) {
+                // known finding: slicing honours the length field (8 <= length < available) and cuts
+                witness!(true, "KF:c04-udp-length-ignored");
+                assert!(sp.len() < hp.len(), "kf: sliced payload is the shorter one");
+            } else {
+                assert!(hp.len() == sp.len(), "payload length differs");
+            }
+        }
+        (Err(a), Err(b)) => cmp_err(a, b),
+        (Ok(h), Err(e)) => {
+            if udp_len_ignored(&h.transport, h.payload.slice().len()) {
+                // known finding: UDP length larger than the data or in 1..=7, noticed by slicing only
+                witness!(true, "KF:c04-udp-length-ignored");
+                match e {
+                    SliceError::Len(l) => {
+                        assert!(l.layer == Layer::UdpPayload || l.layer == Layer::UdpHeader, "kf: sliced error is the UDP length")
+                    }
+                    _ => assert!(false, "kf: sliced error is the UDP length"),
+                }
+            } else {
+                assert!(false, "verdict differs: PacketHeaders accepts, SlicedPacket rejects");
+            }
+        }
+        (Err(_), Ok(_)) => assert!(false, "verdict differs: PacketHeaders rejects, SlicedPacket accepts"),
+    }
+}
+
+fn cmp_lax(d: &[u8], h: &LaxPacketHeaders, s: &LaxSlicedPacket, sh: Shape) {
+    let ovf = overflow_of(d, sh);
+    assert!(eq_link(&h.link, &s.link), "lax: link header differs");
+    assert!(h.link_exts.len() == s.link_exts.len(), "lax: number of link extensions differs");
+    if h.link_exts.len() > 0 {
+        assert!(h.link_exts[0] == s.link_exts[0].to_header(), "lax: link_exts[0] differs");
+    }
+    if h.link_exts.len() > 1 {
+        assert!(h.link_exts[1] == s.link_exts[1].to_header(), "lax: link_exts[1] differs");
+    }
+    if h.link_exts.len() > 2 {
+        assert!(h.link_exts[2] == s.link_exts[2].to_header(), "lax: link_exts[2] differs");
+    }
+    match (&h.net, &s.net) {
+        (None, None) => {}
+        // (in the overflow case both conversions stop at the header that does not fit)
+        (Some(a), Some(b)) => assert!(eq_net_lax(a, b, sh.kinds), "lax: net headers differ"),
+        _ => assert!(false, "lax: net header present in one result only"),
+    }
+    if let Some((o, kind)) = ovf {
+        // documented difference, lax flavour: struct decoding stops silently at the header that does not
+        // fit; whatever slicing finds behind it (more layers or a stop error) goes unnoticed
+        assert!(h.stop_err.is_none(), "lax overflow: struct decoding must stop without an error");
+        assert!(h.transport.is_none(), "lax overflow: no transport header behind an undecoded extension header");
+        match &h.payload {
+            LaxPayloadSlice::Ip(p) => {
+                assert!(p.ip_number == IpNumber(kind), "lax overflow: payload protocol is the header that did not fit");
+                assert!(p.payload.as_ptr() == d[o..].as_ptr(), "lax overflow: payload starts at the header that did not fit");
+            }
+            _ => assert!(false, "lax overflow: payload must be the IP payload"),
+        }
+        return;
+    }
+    match (&h.transport, &s.transport) {
+        (None, None) => {}
+        (Some(a), Some(b)) => assert!(eq_transport_slice(a, b, sh.tr), "lax: transport header differs"),
+        _ => assert!(false, "lax: transport header present in one result only"),
+    }
+    match (&h.stop_err, &s.stop_err) {
+        (None, None) => {}
+        (Some((ea, la)), Some((eb, lb))) => {
+            assert!(la == lb, "lax: stop layer differs");
+            cmp_err(ea, eb);
+        }
+        _ => assert!(false, "lax: stop_err present in one result only"),
+    }
+    let (sp, sproto) = lax_innermost(s);
+    let hp = h.payload.slice();
+    let hproto = lax_payload_proto(&h.payload);
+    if sproto == Proto::Nothing && hproto != Proto::Nothing {
+        // known finding: after a successfully decoded ARP packet `LaxPacketHeaders` leaves `payload` at the
+        // ether payload (the ARP bytes themselves) although the documentation (and the strict sibling)
+        // say `Empty`
+        witness!(true, "KF:c04-lax-arp-payload-not-empty");
+        assert!(matches!(&h.net, Some(NetHeaders::Arp(_))) && h.stop_err.is_none(), "kf: only behind a decoded ARP packet");
+        assert!(hproto == Proto::Ether(EtherType::ARP), "kf: stale ether payload");
+        return;
+    }
+    assert!(hproto == sproto, "lax: payload kind / protocol differs");
+    assert!(hp.len() == sp.len(), "lax: payload length differs");
+    if hproto != Proto::Nothing {
+        assert!(hp.as_ptr() == sp.as_ptr(), "lax: payload start differs");
+    }
+}
+
+// ================================================================ harness bodies
+
+/// shape specific vacuity guard
+pub const W_NONE: u8 = 0;
+/// struct result carries a transport header and a non-empty payload
+pub const W_TRANSPORT: u8 = 1;
+/// permitted difference reached with slicing failing behind the header that did not fit
+pub const W_OVF_FAULT: u8 = 2;
+/// permitted difference reached with slicing succeeding
+pub const W_OVF_OK: u8 = 3;
+/// fragmented IP payload
+pub const W_FRAG: u8 = 4;
+/// both reject with a content error
+pub const W_ERR_CONTENT: u8 = 5;
+/// never accepts (skeleton is a content fault)
+pub const W_NEVER_OK: u8 = 6;
+/// net header present in the struct result
+pub const W_NET: u8 = 7;
+/// three link extensions decoded
+pub const W_EXTS3: u8 = 8;
+
+/// cannot be rejected (unknown ether type: everything is payload)
+pub const W_NEVER_ERR: u8 = 9;
+
+fn strict_witnesses(d: &[u8], h: &Result<PacketHeaders, SliceError>, s: &Result<SlicedPacket, SliceError>, sh: Shape, w: u8) {
+    witness!(w == W_NEVER_OK || (h.is_ok() && s.is_ok()), "both_accept");
+    witness!(w == W_NEVER_ERR || (h.is_err() && s.is_err()), "both_reject");
+    let special = match w {
+        W_TRANSPORT => matches!(h, Ok(h) if h.transport.is_some() && h.payload.slice().len() > 0),
+        W_OVF_FAULT => overflow_of(d, sh).is_some() && h.is_ok() && s.is_err(),
+        W_OVF_OK => overflow_of(d, sh).is_some() && h.is_ok() && s.is_ok(),
+        W_FRAG => matches!(h, Ok(h) if matches!(&h.payload, PayloadSlice::Ip(p) if p.fragmented && p.payload.len() > 0)),
+        W_ERR_CONTENT | W_NEVER_OK => {
+            matches!((h, s), (Err(a), Err(b)) if !matches!(a, SliceError::Len(_)) && !matches!(b, SliceError::Len(_)))
+        }
+        W_NET => matches!(h, Ok(h) if h.net.is_some()),
+        W_EXTS3 => matches!(h, Ok(h) if h.link_exts.len() == 3),
+        _ => true,
+    };
+    witness!(special, "shape_specific");
+}
+
+fn run_strict_ip(_et: u16, d: &[u8], sh: Shape, w: u8) {
+    let h = PacketHeaders::from_ip_slice(d);
+    let s = SlicedPacket::from_ip(d);
+    strict_witnesses(d, &h, &s, sh, w);
+    cmp_strict(d, &h, &s, sh);
+}
+
+fn run_strict_et(et: u16, d: &[u8], sh: Shape, w: u8) {
+    let h = PacketHeaders::from_ether_type(EtherType(et), d);
+    let s = SlicedPacket::from_ether_type(EtherType(et), d);
+    strict_witnesses(d, &h, &s, sh, w);
+    cmp_strict(d, &h, &s, sh);
+}
+
+fn run_strict_eth(_et: u16, d: &[u8], sh: Shape, w: u8) {
+    let h = PacketHeaders::from_ethernet_slice(d);
+    let s = SlicedPacket::from_ethernet(d);
+    strict_witnesses(d, &h, &s, sh, w);
+    cmp_strict(d, &h, &s, sh);
+}
+
+fn lax_special(d: &[u8], h: &LaxPacketHeaders, s: &LaxSlicedPacket, sh: Shape, w: u8) -> bool {
+    match w {
+        W_TRANSPORT => h.transport.is_some() && h.payload.slice().len() > 0 && h.stop_err.is_none(),
+        W_OVF_FAULT => overflow_of(d, sh).is_some() && s.stop_err.is_some(),
+        W_OVF_OK => overflow_of(d, sh).is_some() && s.stop_err.is_none(),
+        W_FRAG => matches!(&h.payload, LaxPayloadSlice::Ip(p) if p.fragmented && p.payload.len() > 0),
+        W_ERR_CONTENT | W_NEVER_OK => {
+            matches!((&h.stop_err, &s.stop_err), (Some((a, _)), Some((b, _))) if !matches!(a, SliceError::Len(_)) && !matches!(b, SliceError::Len(_)))
+        }
+        W_NET => h.net.is_some(),
+        W_EXTS3 => h.link_exts.len() == 3,
+        _ => true,
+    }
+}
+
+fn run_lax_ip(_et: u16, d: &[u8], sh: Shape, w: u8) {
+    let h = LaxPacketHeaders::from_ip(d);
+    let s = LaxSlicedPacket::from_ip(d);
+    witness!(w == W_NEVER_OK || (h.is_ok() && s.is_ok()), "both_accept");
+    witness!(h.is_err() && s.is_err(), "both_reject");
+    let special = match (&h, &s) {
+        (Ok(h), Ok(s)) => lax_special(d, h, s, sh, w),
+        // the IP header itself is the content fault
+        (Err(_), Err(_)) => w == W_NEVER_OK,
+        _ => false,
+    };
+    witness!(special, "shape_specific");
+    match (&h, &s) {
+        (Ok(h), Ok(s)) => cmp_lax(d, h, s, sh),
+        (Err(a), Err(b)) => {
+            // same error type on both sides (ip::LaxHeaderSliceError): kind and values, with the IPv4
+            // "fewer than 20 bytes" ordering tolerances of `cmp_err`
+            use err::ip::LaxHeaderSliceError as E;
+            match (a, b) {
+                (E::Len(x), E::Len(y)) => cmp_err(&SliceError::Len(x.clone()), &SliceError::Len(y.clone())),
+                (E::Content(x), E::Content(y)) => assert!(x == y, "lax from_ip: content error differs"),
+                (E::Len(x), E::Content(err::ip::HeaderError::Ipv4HeaderLengthSmallerThanHeader { .. })) => {
+                    assert!(x.layer == Layer::Ipv4Header && x.len < 20 && x.required_len == 20, "lax from_ip: error kind differs")
+                }
+                _ => assert!(false, "lax from_ip: error kind differs"),
+            }
+        }
+        _ => assert!(false, "lax from_ip: verdict differs"),
+    }
+}
+
+fn run_lax_et(et: u16, d: &[u8], sh: Shape, w: u8) {
+    let h = LaxPacketHeaders::from_ether_type(EtherType(et), d);
+    let s = LaxSlicedPacket::from_ether_type(EtherType(et), d);
+    witness!(w == W_NEVER_OK || (h.stop_err.is_none() && s.stop_err.is_none()), "both_accept");
+    witness!(w == W_NEVER_ERR || (h.stop_err.is_some() && s.stop_err.is_some()), "both_reject");
+    witness!(lax_special(d, &h, &s, sh, w), "shape_specific");
+    cmp_lax(d, &h, &s, sh);
+}
+
+fn run_lax_eth(_et: u16, d: &[u8], sh: Shape, w: u8) {
+    let h = LaxPacketHeaders::from_ethernet(d);
+    let s = LaxSlicedPacket::from_ethernet(d);
+    witness!(h.is_ok() && s.is_ok(), "both_accept");
+    witness!(h.is_err() && s.is_err(), "both_reject");
+    let special = match (&h, &s) {
+        (Ok(h), Ok(s)) => lax_special(d, h, s, sh, w),
+        _ => false,
+    };
+    witness!(special, "shape_specific");
+    match (&h, &s) {
+        (Ok(h), Ok(s)) => cmp_lax(d, h, s, sh),
+        (Err(a), Err(b)) => assert!(a == b, "lax from_ethernet: length error differs"),
+        _ => assert!(false, "lax from_ethernet: verdict differs"),
+    }
+}
+
+// ---------------------------------------------------------------- extension layer, fully symbolic
+
+/// The mechanism behind the permitted difference at the layer where it lives, with NO concrete byte:
+/// `Ipv6Extensions::from_slice` (struct) vs `Ipv6ExtensionsSlice::from_slice` (slicing) over the same
+/// `N` symbolic bytes, symbolic length and symbolic first header number. The whole-packet decoders
+/// hand exactly (next header, payload bytes) to these two functions.
+pub fn exts_layer_strict<const N: usize>() {
+    let data: [u8; N] = any();
+    let len = any_le(N);
+    let d = &data[..len];
+    let first: u8 = any();
+    let h = Ipv6Extensions::from_slice(IpNumber(first), d);
+    let s = Ipv6ExtensionsSlice::from_slice(IpNumber(first), d);
+    let ovf = walk_chain(d, first, 0, len);
+    witness!(ovf.is_some() && s.is_err(), "overflow_fault_behind_unnoticed");
+    witness!(ovf.is_some() && s.is_ok(), "overflow_both_ok");
+    witness!(ovf.is_none() && matches!((&h, &s), (Ok((_, _, r)), Ok(_)) if r.len() < len), "agree_with_headers");
+    witness!(h.is_err() && s.is_err(), "both_reject");
+    match ovf {
+        Some((o, kind)) => match &h {
+            Ok((_, nh, rest)) => {
+                assert!(*nh == IpNumber(kind), "overflow: reported protocol is the header that did not fit");
+                assert!(rest.as_ptr() == d[o..].as_ptr() && rest.len() == len - o, "overflow: rest starts at the header that did not fit");
+            }
+            Err(_) => assert!(false, "overflow: struct decoding must stop without an error"),
+        },
+        None => match (&h, &s) {
+            (Ok((he, hn, hr)), Ok((se, sn, sr))) => {
+                assert!(hn == sn, "next header differs");
+                assert!(same_range(hr, sr), "rest differs");
+                assert!(he.is_fragmenting_payload() == se.is_fragmenting_payload(), "fragmentation verdict differs");
+                // the struct holds exactly the headers the slice covers
+                assert!(he.header_len() == se.slice().len(), "decoded header bytes differ");
+                assert!(he.is_empty() == se.is_empty(), "emptiness differs");
+            }
+            (Err(a), Err(b)) => assert!(a == b, "error differs"),
+            _ => assert!(false, "verdict differs"),
+        },
+    }
+}
+
+pub fn exts_layer_lax<const N: usize>() {
+    let data: [u8; N] = any();
+    let len = any_le(N);
+    let d = &data[..len];
+    let first: u8 = any();
+    let (he, hn, hr, herr) = Ipv6Extensions::from_slice_lax(IpNumber(first), d);
+    let (se, sn, sr, serr) = Ipv6ExtensionsSlice::from_slice_lax(IpNumber(first), d);
+    let ovf = walk_chain(d, first, 0, len);
+    witness!(ovf.is_some() && serr.is_some(), "overflow_fault_behind_unnoticed");
+    witness!(ovf.is_none() && herr.is_some() && hr.len() < len, "stop_behind_a_header");
+    witness!(ovf.is_none() && herr.is_none() && hr.len() < len, "agree_with_headers");
+    match ovf {
+        Some((o, kind)) => {
+            assert!(herr.is_none(), "lax overflow: struct decoding must stop without an error");
+            assert!(hn == IpNumber(kind), "lax overflow: reported protocol is the header that did not fit");
+            assert!(hr.as_ptr() == d[o..].as_ptr() && hr.len() == len - o, "lax overflow: rest starts at the header that did not fit");
+        }
+        None => {
+            assert!(hn == sn, "lax: next header differs");
+            assert!(same_range(hr, sr), "lax: rest differs");
+            assert!(he.is_fragmenting_payload() == se.is_fragmenting_payload(), "lax: fragmentation verdict differs");
+            assert!(he.header_len() == se.slice().len(), "lax: decoded header bytes differ");
+            match (&herr, &serr) {
+                (None, None) => {}
+                (Some((a, la)), Some((b, lb))) => {
+                    assert!(la == lb, "lax: stop layer differs");
+                    assert!(a == b, "lax: stop error differs");
+                }
+                _ => assert!(false, "lax: stop error present on one side only"),
+            }
+        }
+    }
+}
+
+/// Defines a strict and a lax harness body over the same skeleton: `N` symbolic bytes with the listed
+/// dispatch bytes overwritten by constants (writing them - an `assume` does not prune the symbolic
+/// execution of the other dispatch arms), symbolic slice length `<= N`.
+macro_rules! shaped {
+    ($strict:ident, $lax:ident, ($rs:ident, $rl:ident), $et:expr, $n:literal, [$($i:literal = $v:expr),*], $kinds:expr, $tr:expr, $ip6:expr, $w:expr) => {
+        pub fn $strict() {
+            #[allow(unused_mut)]
+            let mut data: [u8; $n] = any();
+            $( data[$i] = $v; )*
+            let len = any_le($n);
+            $rs($et, &data[..len], Shape { kinds: $kinds, tr: $tr, ip6: $ip6 }, $w);
+        }
+        pub fn $lax() {
+            #[allow(unused_mut)]
+            let mut data: [u8; $n] = any();
+            $( data[$i] = $v; )*
+            let len = any_le($n);
+            $rl($et, &data[..len], Shape { kinds: $kinds, tr: $tr, ip6: $ip6 }, $w);
+        }
+    };
+}
+
+// ---- from_ip, IPv4 (byte 0 = version/IHL, byte 9 = protocol)
+shaped!(s_ip4_udp, l_ip4_udp, (run_strict_ip, run_lax_ip), 0, 32, [0 = 0x45, 9 = 17], V4, T_UDP, None, W_TRANSPORT);
+shaped!(s_ip4_tcp, l_ip4_tcp, (run_strict_ip, run_lax_ip), 0, 44, [0 = 0x45, 9 = 6], V4, T_TCP, None, W_TRANSPORT);
+shaped!(s_ip4_icmp, l_ip4_icmp, (run_strict_ip, run_lax_ip), 0, 32, [0 = 0x45, 9 = 1], V4, T_ICMP4, None, W_TRANSPORT);
+shaped!(s_ip4_other, l_ip4_other, (run_strict_ip, run_lax_ip), 0, 24, [0 = 0x45, 9 = 253], V4, 0, None, W_FRAG);
+shaped!(s_ip4_opts_udp, l_ip4_opts_udp, (run_strict_ip, run_lax_ip), 0, 36, [0 = 0x46, 9 = 17], V4, T_UDP, None, W_TRANSPORT);
+shaped!(s_ip4_auth_udp, l_ip4_auth_udp, (run_strict_ip, run_lax_ip), 0, 42, [0 = 0x45, 9 = 51, 20 = 17], V4, T_UDP, None, W_TRANSPORT);
+shaped!(s_ip4_anyproto, l_ip4_anyproto, (run_strict_ip, run_lax_ip), 0, 32, [0 = 0x45], V4, T_ALL, None, W_TRANSPORT);
+shaped!(s_ip4_bad_ihl, l_ip4_bad_ihl, (run_strict_ip, run_lax_ip), 0, 24, [0 = 0x44], V4, 0, None, W_NEVER_OK);
+shaped!(s_ip_bad_version, l_ip_bad_version, (run_strict_ip, run_lax_ip), 0, 24, [0 = 0x35], 0, 0, None, W_NEVER_OK);
+
+// ---- from_ip, IPv6 (byte 0 = version, byte 6 = next header, extension k at 40 + 8k with length byte 0)
+shaped!(s_ip6_udp, l_ip6_udp, (run_strict_ip, run_lax_ip), 0, 52, [0 = 0x60, 6 = 17], V6, T_UDP, None, W_TRANSPORT);
+shaped!(s_ip6_icmp6, l_ip6_icmp6, (run_strict_ip, run_lax_ip), 0, 52, [0 = 0x60, 6 = 58], V6, T_ICMP6, None, W_TRANSPORT);
+shaped!(s_ip6_tcp, l_ip6_tcp, (run_strict_ip, run_lax_ip), 0, 64, [0 = 0x60, 6 = 6], V6, T_TCP, None, W_TRANSPORT);
+shaped!(s_ip6_hbh_udp, l_ip6_hbh_udp, (run_strict_ip, run_lax_ip), 0, 60, [0 = 0x60, 6 = 0, 40 = 17, 41 = 0], V6, T_UDP, Some(0), W_TRANSPORT);
+shaped!(s_ip6_frag_udp, l_ip6_frag_udp, (run_strict_ip, run_lax_ip), 0, 60, [0 = 0x60, 6 = 44, 40 = 17], V6, T_UDP, Some(0), W_FRAG);
+// routing -> routing -> "no next header": the second routing header does not fit the struct; if it is cut short
+// (slice length 48..=55) slicing fails behind the point where struct decoding stopped
+shaped!(s_ip6_route_route, l_ip6_route_route, (run_strict_ip, run_lax_ip), 0, 56, [0 = 0x60, 6 = 43, 40 = 43, 41 = 0, 48 = 59, 49 = 0], V6, 0, Some(0), W_OVF_FAULT);
+shaped!(s_ip6_dest_dest, l_ip6_dest_dest, (run_strict_ip, run_lax_ip), 0, 56, [0 = 0x60, 6 = 60, 40 = 60, 41 = 0, 48 = 59, 49 = 0], V6, 0, Some(0), W_OVF_OK);
+shaped!(s_ip6_frag_frag, l_ip6_frag_frag, (run_strict_ip, run_lax_ip), 0, 56, [0 = 0x60, 6 = 44, 40 = 44, 48 = 59], V6, 0, Some(0), W_OVF_OK);
+shaped!(s_ip6_auth_auth, l_ip6_auth_auth, (run_strict_ip, run_lax_ip), 0, 64, [0 = 0x60, 6 = 51, 40 = 51, 41 = 1, 52 = 59, 53 = 1], V6, 0, Some(0), W_OVF_FAULT);
+shaped!(s_ip6_route_hbh, l_ip6_route_hbh, (run_strict_ip, run_lax_ip), 0, 56, [0 = 0x60, 6 = 43, 40 = 0, 41 = 0], V6, 0, Some(0), W_NEVER_OK);
+shaped!(s_ip6_dest_route_dest_udp, l_ip6_dest_route_dest_udp, (run_strict_ip, run_lax_ip), 0, 72,
+    [0 = 0x60, 6 = 60, 40 = 43, 41 = 0, 48 = 60, 49 = 0, 56 = 17, 57 = 0], V6, T_UDP, Some(0), W_TRANSPORT);
+shaped!(s_ip6_route_dest_dest, l_ip6_route_dest_dest, (run_strict_ip, run_lax_ip), 0, 72,
+    [0 = 0x60, 6 = 43, 40 = 60, 41 = 0, 48 = 60, 49 = 0, 56 = 59, 57 = 0], V6, 0, Some(0), W_OVF_OK);
+
+// ---- from_ether_type (ether type concrete)
+shaped!(s_et_ip4_udp, l_et_ip4_udp, (run_strict_et, run_lax_et), 0x0800, 32, [0 = 0x45, 9 = 17], V4, T_UDP, None, W_TRANSPORT);
+shaped!(s_et_ip6_udp, l_et_ip6_udp, (run_strict_et, run_lax_et), 0x86dd, 52, [0 = 0x60, 6 = 17], V6, T_UDP, None, W_TRANSPORT);
+shaped!(s_et_ip6_route_route, l_et_ip6_route_route, (run_strict_et, run_lax_et), 0x86dd, 64,
+    [0 = 0x60, 6 = 43, 40 = 43, 41 = 0, 48 = 17, 49 = 0], V6, T_UDP, Some(0), W_OVF_FAULT);
+shaped!(s_et_arp, l_et_arp, (run_strict_et, run_lax_et), 0x0806, 32, [], ARP, 0, None, W_NET);
+shaped!(s_et_unknown, l_et_unknown, (run_strict_et, run_lax_et), 0x1234, 8, [], 0, 0, None, W_NEVER_ERR);
+shaped!(s_et_vlan_ip4_udp, l_et_vlan_ip4_udp, (run_strict_et, run_lax_et), 0x8100, 36, [2 = 0x08, 3 = 0x00, 4 = 0x45, 13 = 17], V4, T_UDP, None, W_TRANSPORT);
+shaped!(s_et_vlan_x4, l_et_vlan_x4, (run_strict_et, run_lax_et), 0x88a8, 20,
+    [2 = 0x91, 3 = 0x00, 6 = 0x81, 7 = 0x00, 10 = 0x81, 11 = 0x00], 0, 0, None, W_EXTS3);
+// MACsec, TCI/AN byte 0: no SCI, E = C = 0 (unmodified payload, ether type behind the 6 byte SecTag)
+shaped!(s_et_macsec_ip4_udp, l_et_macsec_ip4_udp, (run_strict_et, run_lax_et), 0x88e5, 40,
+    [0 = 0x00, 6 = 0x08, 7 = 0x00, 8 = 0x45, 17 = 17], V4, T_UDP, None, W_TRANSPORT);
+// MACsec with E = 1 (encrypted payload): decoding ends behind the SecTag
+shaped!(s_et_macsec_enc, l_et_macsec_enc, (run_strict_et, run_lax_et), 0x88e5, 16, [0 = 0x08], 0, 0, None, W_NONE);
+// MACsec (short length symbolic) followed by a VLAN tag
+shaped!(s_et_macsec_vlan, l_et_macsec_vlan, (run_strict_et, run_lax_et), 0x88e5, 16, [0 = 0x00, 6 = 0x81, 7 = 0x00, 10 = 0x12, 11 = 0x34], 0, 0, None, W_NONE);
+
+// ---- from_ethernet (ether type at 12..14)
+shaped!(s_eth_ip4_udp, l_eth_ip4_udp, (run_strict_eth, run_lax_eth), 0, 46, [12 = 0x08, 13 = 0x00, 14 = 0x45, 23 = 17], V4, T_UDP, None, W_TRANSPORT);
+shaped!(s_eth_vlan_ip4_udp, l_eth_vlan_ip4_udp, (run_strict_eth, run_lax_eth), 0, 50,
+    [12 = 0x81, 13 = 0x00, 16 = 0x08, 17 = 0x00, 18 = 0x45, 27 = 17], V4, T_UDP, None, W_TRANSPORT);
+shaped!(s_eth_arp, l_eth_arp, (run_strict_eth, run_lax_eth), 0, 46, [12 = 0x08, 13 = 0x06], ARP, 0, None, W_NET);
+shaped!(s_eth_ip6_udp, l_eth_ip6_udp, (run_strict_eth, run_lax_eth), 0, 66, [12 = 0x86, 13 = 0xdd, 14 = 0x60, 20 = 17], V6, T_UDP, None, W_TRANSPORT);
+
+// unwind 5: no decoder loop needs more inside the bounds used here (link extension loop <= 4 passes, IPv6
+// extension loops <= 4 passes for <= 3 extension headers + exit, 4 byte `memcmp` of `[u8; 4]` members)
+crate::harnesses! {
+    // N = 16: <= 2 extension headers, decoder loops <= 3 passes
+    c04_exts_layer_strict_16 = exts_layer_strict::<16>; unwind 4,
+    c04_exts_layer_lax_16 = exts_layer_lax::<16>; unwind 4,
+    c04_s_ip4_udp = s_ip4_udp; unwind 5,
+    c04_l_ip4_udp = l_ip4_udp; unwind 5,
+    c04_s_ip4_tcp = s_ip4_tcp; unwind 5,
+    c04_l_ip4_tcp = l_ip4_tcp; unwind 5,
+    c04_s_ip4_icmp = s_ip4_icmp; unwind 5,
+    c04_l_ip4_icmp = l_ip4_icmp; unwind 5,
+    c04_s_ip4_other = s_ip4_other; unwind 5,
+    c04_l_ip4_other = l_ip4_other; unwind 5,
+    c04_s_ip4_opts_udp = s_ip4_opts_udp; unwind 5,
+    c04_l_ip4_opts_udp = l_ip4_opts_udp; unwind 5,
+    c04_s_ip4_auth_udp = s_ip4_auth_udp; unwind 5,
+    c04_l_ip4_auth_udp = l_ip4_auth_udp; unwind 5,
+    c04_s_ip4_anyproto = s_ip4_anyproto; unwind 5,
+    c04_l_ip4_anyproto = l_ip4_anyproto; unwind 5,
+    c04_s_ip4_bad_ihl = s_ip4_bad_ihl; unwind 5,
+    c04_l_ip4_bad_ihl = l_ip4_bad_ihl; unwind 5,
+    c04_s_ip_bad_version = s_ip_bad_version; unwind 5,
+    c04_l_ip_bad_version = l_ip_bad_version; unwind 5,
+    c04_s_ip6_udp = s_ip6_udp; unwind 5,
+    c04_l_ip6_udp = l_ip6_udp; unwind 5,
+    c04_s_ip6_icmp6 = s_ip6_icmp6; unwind 5,
+    c04_l_ip6_icmp6 = l_ip6_icmp6; unwind 5,
+    c04_s_ip6_tcp = s_ip6_tcp; unwind 5,
+    c04_l_ip6_tcp = l_ip6_tcp; unwind 5,
+    c04_s_ip6_hbh_udp = s_ip6_hbh_udp; unwind 5,
+    c04_l_ip6_hbh_udp = l_ip6_hbh_udp; unwind 5,
+    c04_s_ip6_frag_udp = s_ip6_frag_udp; unwind 5,
+    c04_l_ip6_frag_udp = l_ip6_frag_udp; unwind 5,
+    c04_s_ip6_route_route = s_ip6_route_route; unwind 5,
+    c04_l_ip6_route_route = l_ip6_route_route; unwind 5,
+    c04_s_ip6_dest_dest = s_ip6_dest_dest; unwind 5,
+    c04_l_ip6_dest_dest = l_ip6_dest_dest; unwind 5,
+    c04_s_ip6_frag_frag = s_ip6_frag_frag; unwind 5,
+    c04_l_ip6_frag_frag = l_ip6_frag_frag; unwind 5,
+    c04_s_ip6_auth_auth = s_ip6_auth_auth; unwind 5,
+    c04_l_ip6_auth_auth = l_ip6_auth_auth; unwind 5,
+    c04_s_ip6_route_hbh = s_ip6_route_hbh; unwind 5,
+    c04_l_ip6_route_hbh = l_ip6_route_hbh; unwind 5,
+    c04_s_ip6_dest_route_dest_udp = s_ip6_dest_route_dest_udp; unwind 5,
+    c04_l_ip6_dest_route_dest_udp = l_ip6_dest_route_dest_udp; unwind 5,
+    c04_s_ip6_route_dest_dest = s_ip6_route_dest_dest; unwind 5,
+    c04_l_ip6_route_dest_dest = l_ip6_route_dest_dest; unwind 5,
+    c04_s_et_ip4_udp = s_et_ip4_udp; unwind 5,
+    c04_l_et_ip4_udp = l_et_ip4_udp; unwind 5,
+    c04_s_et_ip6_udp = s_et_ip6_udp; unwind 5,
+    c04_l_et_ip6_udp = l_et_ip6_udp; unwind 5,
+    c04_s_et_ip6_route_route = s_et_ip6_route_route; unwind 5,
+    c04_l_et_ip6_route_route = l_et_ip6_route_route; unwind 5,
+    c04_s_et_arp = s_et_arp; unwind 5,
+    c04_l_et_arp = l_et_arp; unwind 5,
+    c04_s_et_unknown = s_et_unknown; unwind 5,
+    c04_l_et_unknown = l_et_unknown; unwind 5,
+    c04_s_et_vlan_ip4_udp = s_et_vlan_ip4_udp; unwind 5,
+    c04_l_et_vlan_ip4_udp = l_et_vlan_ip4_udp; unwind 5,
+    c04_s_et_vlan_x4 = s_et_vlan_x4; unwind 5,
+    c04_l_et_vlan_x4 = l_et_vlan_x4; unwind 5,
+    c04_s_et_macsec_ip4_udp = s_et_macsec_ip4_udp; unwind 5,
+    c04_l_et_macsec_ip4_udp = l_et_macsec_ip4_udp; unwind 5,
+    c04_s_et_macsec_enc = s_et_macsec_enc; unwind 5,
+    c04_l_et_macsec_enc = l_et_macsec_enc; unwind 5,
+    c04_s_et_macsec_vlan = s_et_macsec_vlan; unwind 5,
+    c04_l_et_macsec_vlan = l_et_macsec_vlan; unwind 5,
+    c04_s_eth_ip4_udp = s_eth_ip4_udp; unwind 5,
+    c04_l_eth_ip4_udp = l_eth_ip4_udp; unwind 5,
+    c04_s_eth_vlan_ip4_udp = s_eth_vlan_ip4_udp; unwind 5,
+    c04_l_eth_vlan_ip4_udp = l_eth_vlan_ip4_udp; unwind 5,
+    c04_s_eth_arp = s_eth_arp; unwind 5,
+    c04_l_eth_arp = l_eth_arp; unwind 5,
+    c04_s_eth_ip6_udp = s_eth_ip6_udp; unwind 5,
+    c04_l_eth_ip6_udp = l_eth_ip6_udp; unwind 5,
+}
